@@ -56,6 +56,11 @@ func Boot(configPath string) error {
 	if err := server.LoadConfig(configPath); err != nil {
 		return fmt.Errorf("LoadConfig: %v", err)
 	}
+	// let the logging goroutine finish what LoadConfig queued before Initialize swaps the logger under it
+	for i := 0; i < 200 && dvid.PendingLogMessages() > 0; i++ {
+		time.Sleep(5 * time.Millisecond)
+	}
+	time.Sleep(20 * time.Millisecond)
 	if err := server.Initialize(); err != nil {
 		return fmt.Errorf("server.Initialize: %v", err)
 	}
